@@ -437,7 +437,9 @@ class Parser:
     def _rvalue_expr(self, dest, code_gen):
         if not ExpressionParser(self).expression():
             return False
-        code_gen.pop(dest)
+        if dest is not OpCode.PUSH:
+            # Inside an outer expression the value stays on the stack.
+            code_gen.pop(dest)
         return True
 
     def _at_rvalue(self, include_reg=True) -> bool:
